@@ -249,8 +249,15 @@ def main(chk):
     rng = chk.rng
     cases = []
     nlibs = chk.pick(5, 40)
+    def has_seq_item_assignment(seed):
+        m = natgen.generate(random.Random(seed), "liba").model
+        return any(c.get("item_array", {}).get("seq") for c in m["classes"])
     for i in range(nlibs):
         libseed = rng.randrange(1 << 30)
+        while i < 2 and not has_seq_item_assignment(libseed):
+            # the first two libraries of every run have a class with int item assignment through the sequence
+            # protocol (about 1 library in 8 cannot host one: operator [] already runs through its whole hierarchy)
+            libseed = rng.randrange(1 << 30)
         cases.append(dict(id=len(cases) + 1, libseed=libseed, cfg="native", drvseed=rng.randrange(1 << 30),
                           nsteps=chk.pick(500, 1500)))
         if (chk.quick() and i == 0) or (not chk.quick() and i % 4 == 0):
